@@ -127,6 +127,12 @@ def run_case(case, ch, workdir):
         if "error" in a:
             violation(res, "cannot-serialize", sig, f"session A: {a['error']}; {ctx}")
             continue
+        if "ref_error" in a:
+            # the task fails under this configuration even without any serialization
+            # (then it has to fail after the round trip as well)
+            if "error" not in b and not b.get("errored"):
+                violation(res, "outputs-differ", sig, f"in-session run failed ({a['ref_error']}) but the deserialized job returned {b.get('out')}; {ctx}")
+            continue
         if "error" in b:
             violation(res, "cannot-run-deserialized", sig, f"session B: {b['error']} {b.get('tb', '')[-300:]}; {ctx}")
             continue
